@@ -133,6 +133,12 @@ func ReplayLogOpts(rf ReplayFile, o ReplayOpts) ([]string, error) {
 }
 
 func runC11(c *fw.Case) {
+	if c.Index%16 == 13 {
+		// the upgrade block: two runs of the v1.2.0 upgrade on the same staged state (see C16)
+		runC16(c)
+		c.KeepViolations("C11/")
+		return
+	}
 	r, err := newRich(c, true)
 	if err != nil {
 		c.Describe("no-config")
